@@ -145,7 +145,7 @@ def gen_history(run_seed: int, tier: str, plugin: Optional[str] = None) -> Dict[
     for i in range(n_pre):
         x = r.random()
         if x < 0.30:
-            ops.append(["PLACE", r.choice(["stale_owned", "stale_realname", "stale_realname", "foreign", "empty_pkg_dir", "committed_copy"]), r.randrange(2**32)])
+            ops.append(["PLACE", r.choice(["stale_owned", "stale_realname", "stale_realname", "stale_casename", "foreign", "empty_pkg_dir", "committed_copy"]), r.randrange(2**32)])
         elif x < 0.45:
             ops.append(["RUN_OTHER", r.choice(OTHER[plugin]), gen_model_spec(r, "python", tier, allow_full=False), gw.env_for(run_seed, f"other{i}", re_)])
         else:
@@ -238,7 +238,7 @@ def execute(h: Dict[str, Any]) -> Dict[str, Any]:
     plugin = h["plugin"]
     w = gw.World(f"c16-{h['run_seed']}")
     viol: List[Dict[str, str]] = []
-    probes = {k: 0 for k in ["stale_owned_placed", "stale_realname_placed", "foreign_placed", "empty_pkg_dir_placed", "committed_copy_placed",
+    probes = {k: 0 for k in ["stale_owned_placed", "stale_realname_placed", "stale_casename_placed", "foreign_placed", "empty_pkg_dir_placed", "committed_copy_placed",
                              "cleanup_removed_stale", "stale_overwritten", "fault_fired", "fault_not_reached", "faulted_run_failed",
                              "faulted_run_left_partial", "other_plugin_tree", "merge_files", "different_model_before", "listing_permuted",
                              "test_dir_used", "uuid_checked", "ascii_locale", "clock_shifted", "long_output_path", "crlf_main_rs", "symlinked_output_dir", "python_optimize", "path_spelled_relative_or_odd", "other_machine_identity"]}
@@ -291,7 +291,22 @@ def execute(h: Dict[str, Any]) -> Dict[str, Any]:
 
         # ---- earlier states ------------------------------------------------------------------------
         for i, op in enumerate(h["ops"]):
-            if op[0] == "PLACE" and op[1] == "stale_realname":
+            if op[0] == "PLACE" and op[1] == "stale_casename":
+                # owned-looking files whose names differ from real target names only in letter case (what an
+                # earlier model revision with another capitalisation of a type name leaves behind)
+                pr = random.Random(op[2])
+                names = sorted(ref_owned)
+                for nm in pr.sample(names, min(len(names), pr.randint(1, 3))):
+                    d_, b_ = os.path.split(nm)
+                    variants = [b_.lower(), b_.upper(), b_.swapcase(), b_[:1].swapcase() + b_[1:], b_[:-1] + b_[-1:].swapcase()]
+                    alt = next((v for v in pr.sample(variants, len(variants)) if os.path.join(d_, v) not in ref_owned and v.lower().endswith((".cs", ".json", ".py", ".rs"))), None)
+                    if alt and plugin in ("dotnet", "testdata") and alt.endswith((".cs", ".json")):
+                        pth = out / d_ / alt
+                        pth.parent.mkdir(parents=True, exist_ok=True)
+                        pth.write_bytes(ref_owned[nm])
+                probes["stale_casename_placed"] += 1
+                evlog.append(["PLACE", op[1]])
+            elif op[0] == "PLACE" and op[1] == "stale_realname":
                 # wrong bytes under names the target model really produces (what an interrupted or
                 # older run of a related model leaves behind)
                 pr = random.Random(op[2])
